@@ -20,6 +20,12 @@
 //!            and must stay connected when keepalive is off (control)
 //!   tls-stall  (`wss://` URL, `--tls-skip-verify`) accept and never answer the TLS ClientHello:
 //!            the handshake timeout covers TCP connect and the TLS handshake too
+//!   garbage  complete the handshake, send one binary message that is not a frame of the protocol
+//!            (8 octets 0xff) unprompted, then read until the client ends the connection: the client's
+//!            multiplexor ends with `InvalidFrame`, an error that is not retryable
+//!   garbage-reply  the same message, but sent in answer to the client's first binary message (the
+//!            `Connect` of a local connection that the controller opens): a stream request is pending
+//!            on the connection when it dies -- the client must end at once all the same
 //! plus a family with a port that really refuses (bound, not listening) where the
 //! attempts cannot be seen but the result and the total time can.
 //!
@@ -69,6 +75,9 @@ const LONG_WAIT_MS: u64 = 20_000;
 /// client is nudged with a local connection (parallel phase / alone on the machine)
 const QUIET_PAR_MS: u64 = 3000;
 const QUIET_ISO_MS: u64 = 8000;
+/// family H: how long a client that reconnects after a non-retryable `InvalidFrame` is watched at most
+/// (until it has come back min(max_retry_count, 3) + 2 times or has ended)
+const GARBAGE_WATCH_MS: u64 = 2500;
 
 // ---------------------------------------------------------------------------------------
 // scenarios
@@ -90,6 +99,11 @@ pub enum Beh {
     /// connection open and silent (frozen host, partition right behind the Close, balancer leaving the TCP close to
     /// the client as RFC 6455 7.1.1 allows)
     CloseHold,
+    /// a binary message that does not parse as a frame, sent unprompted right after the WebSocket handshake
+    /// (`penguin_mux::Error::InvalidFrame`: not retryable); the server then reads until the client ends the connection
+    Garbage,
+    /// the same message in answer to the client's first binary message, i.e. while a stream request is pending
+    GarbageReply,
 }
 
 impl Beh {
@@ -106,17 +120,23 @@ impl Beh {
             Beh::Silent => "silent",
             Beh::TlsStall => "tls-stall",
             Beh::CloseHold => "close-hold",
+            Beh::Garbage => "garbage",
+            Beh::GarbageReply => "garbage-reply",
         }
     }
     fn parse(s: &str) -> Option<Self> {
-        [Beh::Reset, Beh::Stall, Beh::Http404, Beh::Close0, Beh::Close300, Beh::Drop, Beh::Mute, Beh::Healthy, Beh::Silent, Beh::TlsStall, Beh::CloseHold].into_iter().find(|b| b.name() == s)
+        [Beh::Reset, Beh::Stall, Beh::Http404, Beh::Close0, Beh::Close300, Beh::Drop, Beh::Mute, Beh::Healthy, Beh::Silent, Beh::TlsStall, Beh::CloseHold, Beh::Garbage, Beh::GarbageReply].into_iter().find(|b| b.name() == s)
     }
     /// the WebSocket handshake completes: the client "had a successful connection"
     fn connects(self) -> bool {
-        matches!(self, Beh::Close0 | Beh::Close300 | Beh::CloseHold | Beh::Drop | Beh::Mute | Beh::Healthy | Beh::Silent)
+        matches!(self, Beh::Close0 | Beh::Close300 | Beh::CloseHold | Beh::Drop | Beh::Mute | Beh::Healthy | Beh::Silent | Beh::Garbage | Beh::GarbageReply)
     }
     fn terminal(self) -> bool {
-        matches!(self, Beh::Healthy | Beh::Http404)
+        matches!(self, Beh::Healthy | Beh::Http404 | Beh::Garbage | Beh::GarbageReply)
+    }
+    /// the server's answer is a frame that does not parse: the connection ends with a non-retryable error
+    fn garbage(self) -> bool {
+        matches!(self, Beh::Garbage | Beh::GarbageReply)
     }
     /// class used in violation keys
     fn class(self) -> &'static str {
@@ -130,6 +150,9 @@ impl Beh {
             Beh::Healthy => "healthy",
             Beh::Silent => "silence",
             Beh::TlsStall => "tls-stall",
+            Beh::Garbage => "invalid-frame-unprompted",
+            // the case the family is about: the frame that does not parse answers a pending stream request
+            Beh::GarbageReply => "invalid-frame",
         }
     }
 }
@@ -332,6 +355,12 @@ fn model_x(script: &[Beh], n: u32, cap_ms: u64, keepalive: bool, open_end: bool)
         let step = match b {
             Beh::Healthy => Step { k, k_unreset: ku, delay_ms: None, end: Some(End::Stays) },
             Beh::Http404 => Step { k, k_unreset: ku, delay_ms: None, end: Some(End::NonRetryable) },
+            // the handshake completed (a successful connection), then the connection ended with an error that is
+            // not retryable -- whether or not a stream request was pending on it
+            Beh::Garbage | Beh::GarbageReply => {
+                k = 0;
+                Step { k, k_unreset: ku, delay_ms: None, end: Some(End::NonRetryable) }
+            }
             Beh::Silent if !keepalive => Step { k: 0, k_unreset: ku, delay_ms: None, end: Some(End::Stays) },
             _ => {
                 if b.connects() {
@@ -513,6 +542,38 @@ fn build_matrix(thorough: bool) -> (Vec<Scenario>, Bounds) {
             v.push(g(vec![ch, other, h], 0, None, Some(0)));
         }
     }
+    // H: the connection ends with an error that is not retryable after the handshake (the server sends a binary
+    // message that is not a frame: `InvalidFrame`): the client ends at once, max_retry_count or not -- when nothing
+    // local is pending (`garbage`, the control) and just as well when the bad message answers a stream request
+    // (`garbage-reply`: the controller opens a local connection unless one is pending already)
+    let (ga, gr) = (Beh::Garbage, Beh::GarbageReply);
+    let hf = |script: Vec<Beh>, n: u32, down_at: Option<usize>| Scenario { family: "H-invalid-frame", script, n, cap_ms: 300_000, down_at, ..Scenario::plain() };
+    for n in [0u32, 1, 3] {
+        v.push(hf(vec![ga], n, None));
+        v.push(hf(vec![gr], n, None));
+    }
+    // the request is waiting in the client when the connection comes up / was parked after a stream-request timeout
+    v.push(hf(vec![Beh::Reset, gr], 1, Some(0)));
+    v.push(hf(vec![Beh::Mute, gr], 0, None));
+    if thorough {
+        for other in [Beh::Reset, Beh::Close0] {
+            for n in [0u32, 2] {
+                v.push(hf(vec![other, ga], n, None));
+                v.push(hf(vec![other, gr], n, None));
+                v.push(hf(vec![other, gr], n, Some(0)));
+            }
+        }
+        v.push(hf(vec![Beh::Stall, gr], 2, Some(0)));
+        v.push(hf(vec![Beh::Drop, gr], 1, Some(0)));
+        v.push(hf(vec![Beh::Close300, gr], 0, None));
+        v.push(hf(vec![ch, gr], 1, Some(0)));
+        v.push(hf(vec![Beh::Mute, gr], 1, None));
+        v.push(hf(vec![Beh::Reset, Beh::Reset, gr], 3, Some(1)));
+        v.push(hf(vec![Beh::Reset, Beh::Close0, gr], 2, Some(0)));
+        // with keepalive running on the connection
+        v.push(Scenario { ka: ka0, ..hf(vec![ga], 1, None) });
+        v.push(Scenario { ka: ka0, ..hf(vec![gr], 1, None) });
+    }
     // F: a `wss://` server that accepts the TCP connection and never answers the TLS ClientHello:
     // every attempt is a handshake timeout (retryable)
     let ts = Beh::TlsStall;
@@ -593,6 +654,8 @@ struct Exec {
     mute_req_lo: BTreeMap<usize, f64>,
     /// the controller walked the whole script
     completed: bool,
+    /// when the controller stopped watching (ms since t0)
+    finished_ms: f64,
     stop: Option<String>,
     /// harness trouble (port taken ...): run again, never a verdict
     machinery: Option<String>,
@@ -648,6 +711,7 @@ impl Exec {
             quiet: Vec::new(),
             mute_req_lo: BTreeMap::new(),
             completed: false,
+            finished_ms: 0.0,
             stop: None,
             machinery: None,
             listen_ms: None,
@@ -676,7 +740,7 @@ impl Exec {
             "scenario": self.sc.to_json(),
             "alone_on_the_machine": self.iso,
             "attempts": self.attempts.iter().map(|a| json!({
-                "accept_ms": r1(a.accept_ms), "played": a.beh.map_or("(beyond the script: stalled)", Beh::name),
+                "accept_ms": r1(a.accept_ms), "played": a.beh.map_or("(beyond the script: stalled)".to_string(), |b| if a.beyond { format!("{} (beyond the script: played again)", b.name()) } else { b.name().to_string() }),
                 "handshake_done_ms": a.hs_done_ms.map(r1), "handshake_error": a.hs_err,
                 "server_action_ms": a.act_before_ms.map(r1), "first_frame_ms": a.first_bin_ms.map(r1), "peer_end_ms": a.peer_end_ms.map(r1),
                 "pongs_sent": a.pongs, "last_pong_ms": a.pong_after_ms.map(r1), "went_silent_ms": a.silent_ms.map(r1), "first_byte_from_client": a.first_byte.map(|b| format!("0x{b:02x}")),
@@ -864,6 +928,34 @@ async fn exec_script(sc: &Scenario, iso: bool) -> Exec {
                 let acc = sh.read(|l| l.attempts[j].accept_ms);
                 ex.mute_req_lo.insert(j, acc.max(first_open));
             }
+            Beh::Garbage | Beh::GarbageReply => {
+                // `garbage-reply` answers a stream request: one must be pending on this connection
+                if b == Beh::GarbageReply && ctl.locals.is_empty() {
+                    ctl.open("request");
+                }
+                // the bad message went out -- or the connection / the client ended before the server could play
+                let played = |l: &net::Log| {
+                    let a = &l.attempts[j];
+                    a.act_after_ms.map(|_| true).or((l.client_end.is_some() || a.peer_end_ms.is_some()).then_some(false))
+                };
+                let mut r = sh.wait(if b == Beh::GarbageReply { 5000 } else { LONG_WAIT_MS }, played).await;
+                if r.is_none() && b == Beh::GarbageReply {
+                    // a local connection that was pending from before has not made it to this connection: a fresh one
+                    ctl.open("request");
+                    r = sh.wait(LONG_WAIT_MS, played).await;
+                }
+                match r {
+                    Some(true) => {}
+                    Some(false) if sh.read(|l| l.client_end.is_some()) => {
+                        ex.stop = Some(format!("the client ended before the fake server had played {} on attempt {j}", b.name()));
+                        break;
+                    }
+                    _ => {
+                        ex.machinery = Some(format!("the fake server never played {} on attempt {j}", b.name()));
+                        break;
+                    }
+                }
+            }
             Beh::Stall | Beh::TlsStall => {}
             Beh::Silent => match sh.wait(LONG_WAIT_MS, |l| l.attempts[j].silent_ms.map(|_| true).or(l.attempts[j].peer_end_ms.map(|_| false))).await {
                 Some(true) => {}
@@ -904,6 +996,12 @@ async fn exec_script(sc: &Scenario, iso: bool) -> Exec {
                 } else {
                     let extra = if b == Beh::Stall { sc.hs_ms * 3 } else { 0 };
                     sh.wait(LONG_WAIT_MS + extra, ended).await;
+                    if b.garbage() {
+                        // A client that came back although the error is not retryable: the server plays the same on
+                        // every further connection; watch (briefly) whether the retry limit stops the client at least.
+                        let want = len + sc.n.min(3) as usize + 1;
+                        sh.wait(GARBAGE_WATCH_MS, |l| (l.client_end.is_some() || l.attempts.len() > want).then_some(())).await;
+                    }
                 }
                 ex.completed = true;
             }
@@ -922,6 +1020,7 @@ async fn exec_script(sc: &Scenario, iso: bool) -> Exec {
         }
     }
     ex.client_end_at_finish = sh.read(|l| l.client_end.clone());
+    ex.finished_ms = sh.now_ms();
     ctl.finish(&mut ex).await;
     server.abort();
     client.abort();
@@ -1048,15 +1147,46 @@ fn judge_script(ex: &mut Exec, steps: &[Step]) {
                 Some(c) if c.class == "max-retry" || c.class == "panic" => {}
                 Some(c) => ex.find(format!("giveup.wrong-result.{}", c.class), format!("after max_retry_count={} failed retries the client ended with {} [{}] instead of MaxRetryCountReached; {ctx}", sc.n, c.class, c.text), false),
             },
-            Some(End::NonRetryable) => match &end {
-                None if seen > len => ex.find("nonretryable.retried", format!("attempt {seen} was made after the server answered the upgrade request with 404; {ctx}"), false),
-                None => ex.find("nonretryable.never-ends", format!("the client did not end within {LONG_WAIT_MS} ms after a 404 answer; {ctx}"), true),
-                Some(c) if c.class == "ok" => ex.find("nonretryable.ok-exit", format!("the client returned Ok(()) after a 404 answer; {ctx}"), false),
-                Some(c) if c.class == "max-retry" && (sc.n == 0 || last_step.k < sc.n) => {
-                    ex.find("nonretryable.reported-as-max-retry", format!("the client reported MaxRetryCountReached [{}] although only {} of {} retries had failed; {ctx}", c.text, last_step.k, sc.n), false);
+            Some(End::NonRetryable) => {
+                let lb = sc.script[len - 1];
+                // family H has its own keys (suffix: the class of the behaviour); http404 keeps the plain ones
+                let sfx = if lb.garbage() { format!(".{}", lb.class()) } else { String::new() };
+                let cause = match lb {
+                    Beh::Garbage => format!("the server sent a binary message that is not a frame ({} octets 0xff) right after the WebSocket handshake of connection {}, no stream request pending (the client's multiplexor ends with InvalidFrame, which is not retryable)", net::GARBAGE.len(), len - 1),
+                    Beh::GarbageReply => format!("the server answered the first frame on connection {} (the Connect of a pending local connection) with a binary message that is not a frame ({} octets 0xff) (the client's multiplexor ends with InvalidFrame, which is not retryable)", len - 1, net::GARBAGE.len()),
+                    _ => "the server answered the upgrade request with 404".to_string(),
+                };
+                match &end {
+                    None if seen > len && lb.garbage() => {
+                        let sent = att[len - 1].act_after_ms.unwrap_or(f64::NAN);
+                        ex.find(
+                            format!("nonretryable.retried{sfx}"),
+                            format!(
+                                "{cause} at {sent:.1} ms; the client must end at once, but it reconnected: {} further attempt(s) at {:?} ms (the server played the same on each), the client still running at {:.0} ms with max_retry_count={}; {ctx}",
+                                seen - len,
+                                att[len..].iter().map(|a| a.accept_ms.round()).collect::<Vec<_>>(),
+                                ex.finished_ms,
+                                sc.n
+                            ),
+                            false,
+                        );
+                    }
+                    None if seen > len => ex.find("nonretryable.retried", format!("attempt {seen} was made after {cause}; {ctx}"), false),
+                    None => ex.find(format!("nonretryable.never-ends{sfx}"), format!("the client did not end within {LONG_WAIT_MS} ms after {cause}; {ctx}"), true),
+                    Some(c) if c.class == "ok" => ex.find(format!("nonretryable.ok-exit{sfx}"), format!("the client returned Ok(()) after {cause}; {ctx}"), false),
+                    Some(c) if c.class == "max-retry" && (sc.n == 0 || last_step.k < sc.n || (seen > len && lb.garbage())) => {
+                        let why = if seen > len { format!("after {} further attempt(s) although {cause}", seen - len) } else { format!("although only {} of {} retries had failed", last_step.k, sc.n) };
+                        ex.find(format!("nonretryable.reported-as-max-retry{sfx}"), format!("the client reported MaxRetryCountReached [{}] {why}; {ctx}", c.text), false);
+                    }
+                    // it ended, with the error of the connection -- but only after it had come back
+                    Some(c) if seen > len && lb.garbage() && c.class != "panic" => ex.find(
+                        format!("nonretryable.retried{sfx}"),
+                        format!("{cause}; the client must end at once, but it made {} further attempt(s) before it ended with {} [{}] at {:.0} ms; {ctx}", seen - len, c.class, c.text, c.t_ms),
+                        false,
+                    ),
+                    Some(_) => {}
                 }
-                Some(_) => {}
-            },
+            }
             Some(End::Stays) => {
                 if let Some(c) = &end {
                     if c.class != "panic" {
@@ -1091,7 +1221,7 @@ fn judge_script(ex: &mut Exec, steps: &[Step]) {
     if ex.completed && seen == len {
         if let (Some(c), Some(a)) = (&end, att.last()) {
             let up = match sc.script[len - 1] {
-                Beh::Reset | Beh::Http404 => a.act_after_ms,
+                Beh::Reset | Beh::Http404 | Beh::Garbage | Beh::GarbageReply => a.act_after_ms,
                 Beh::Stall | Beh::TlsStall => Some(a.accept_ms + sc.hs_ms as f64),
                 _ => None,
             };
@@ -1182,7 +1312,7 @@ fn judge_script(ex: &mut Exec, steps: &[Step]) {
             // clock starts when its multiplexor is created, after the server accepted), no later than T + I
             Beh::Silent => Some((a.pong_before_ms.unwrap_or(a.accept_ms) + ka_t as f64, noticed_by(&sc, a))),
             Beh::Mute => ex.mute_req_lo.get(&j).map(|lo| (lo + CH_TIMEOUT_MS as f64, a.first_bin_ms.map(|t| t + CH_TIMEOUT_MS as f64))),
-            Beh::Http404 | Beh::Healthy => None,
+            Beh::Http404 | Beh::Healthy | Beh::Garbage | Beh::GarbageReply => None,
         };
         let Some((lo, up)) = anchors else { break };
         prev = Some((lo, up, steps[j], b, q));
@@ -1416,7 +1546,7 @@ fn replay(args: &Args, v: &Value, mut rep: Report) -> Report {
 #[allow(clippy::too_many_lines)]
 pub fn run(args: &Args) -> Report {
     let mut rep = Report::new("C19", &args.tier, "e2e", "exploration");
-    rep.rule = "one execution of the real client_main_inner per point of the scenario matrix (server-behaviour script x max_retry_count x max_retry_interval x local-connection placement; for the silent-server scripts x keepalive interval/timeout or keepalive off; for the stalled-TLS-handshake scripts wss:// x handshake timeout), every point executed; a point is non-trivial/distinct when its scenario record is distinct; a finding counts only when a scenario that showed it in the parallel pass shows it again when run alone on the machine (one scenario per key is re-run, smallest first)".into();
+    rep.rule = "one execution of the real client_main_inner per point of the scenario matrix (server-behaviour script x max_retry_count x max_retry_interval x local-connection placement; for the silent-server scripts x keepalive interval/timeout or keepalive off; for the stalled-TLS-handshake scripts wss:// x handshake timeout; for the invalid-frame scripts the bad message unprompted or in answer to a pending stream request), every point executed; a point is non-trivial/distinct when its scenario record is distinct; a finding counts only when a scenario that showed it in the parallel pass shows it again when run alone on the machine (one scenario per key is re-run, smallest first)".into();
     std::panic::set_hook(Box::new(|_| {}));
     // family F makes the client build a TLS configuration (no TLS handshake is ever completed)
     rusty_penguin_lib::tls::init_crypto_provider();
@@ -1522,13 +1652,14 @@ pub fn run(args: &Args) -> Report {
     rep.bounds.insert("scenarios".into(), json!(matrix.len()));
     rep.bounds.insert("scenarios_per_family".into(), json!(fam));
     rep.bounds.insert("script_len_max".into(), json!({"families_A_B": bounds.len, "give_up_by_preconnect_failures_only": bounds.len + 1, "family_C": if thorough { 5 } else { 4 }}));
-    rep.bounds.insert("behaviours".into(), json!(["reset", "stall", "http404", "close0", "close300", "drop", "mute", "healthy", "silent (family E)", "tls-stall (family F)", "close-hold (family G)", "(really refusing port: family D)"]));
+    rep.bounds.insert("behaviours".into(), json!(["reset", "stall", "http404", "close0", "close300", "drop", "mute", "healthy", "silent (family E)", "tls-stall (family F)", "close-hold (family G)", "garbage, garbage-reply (family H)", "(really refusing port: family D)"]));
     rep.bounds.insert("max_retry_count".into(), json!(bounds.counts));
     rep.bounds.insert("max_retry_interval_ms".into(), json!(bounds.caps));
     rep.bounds.insert("handshake_timeout_ms".into(), json!(matrix.iter().map(|s| s.hs_ms).collect::<std::collections::BTreeSet<_>>()));
     rep.bounds.insert("keepalive_interval_timeout_ms".into(), json!(matrix.iter().filter(|s| s.script.contains(&Beh::Silent)).map(|s| s.ka.map_or("off".to_string(), |(i, t)| format!("{i}/{t}"))).collect::<std::collections::BTreeSet<_>>()));
     rep.bounds.insert("silent_server_answers_pings".into(), json!(format!("until {} Pongs are written or {} ms after the handshake", net::SILENT_PONGS, net::SILENT_ANSWERS_FOR.as_millis())));
     rep.bounds.insert("families_E_F_tolerance_ms".into(), json!({"below_earliest_due_time": WIDE_TOL_LO_MS, "above_latest_due_time": WIDE_TOL_UP_MS, "never_came_after_latest_due_time_plus": HANG_EXTRA_MS}));
+    rep.bounds.insert("family_H_invalid_frame".into(), json!({"message": format!("one binary message of {} octets 0xff after the WebSocket handshake", net::GARBAGE.len()), "variants": ["garbage: unprompted, no stream request pending (control)", "garbage-reply: in answer to the client's first binary message (the Connect of a local connection)"], "max_retry_count": matrix.iter().filter(|s| s.family == "H-invalid-frame").map(|s| s.n).collect::<std::collections::BTreeSet<_>>(), "further_connections": "the same behaviour again", "client_that_comes_back_is_watched_for_ms_at_most": GARBAGE_WATCH_MS}));
     rep.bounds.insert("channel_timeout_ms".into(), json!(CH_TIMEOUT_MS));
     rep.bounds.insert("parallel_scenarios".into(), json!(par));
     rep.bounds.insert("deadline_ms".into(), json!(LONG_WAIT_MS));
@@ -1565,6 +1696,14 @@ pub fn run(args: &Args) -> Report {
     rep.extra.insert("pongs_sent_by_silent_servers".into(), json!(pongs));
     rep.extra.insert("tls_client_hellos_left_unanswered".into(), json!(hellos));
     rep.extra.insert("clients_without_keepalive_that_stayed_on_a_silent_server".into(), json!(ka_controls));
+    // family H
+    let n_inv = ends.get("invalid-frame").copied().unwrap_or(0);
+    let bad_sent = execs.iter().flat_map(|e| &e.attempts).filter(|a| a.beh == Some(Beh::Garbage) && a.act_after_ms.is_some()).count();
+    let bad_replies = execs.iter().flat_map(|e| &e.attempts).filter(|a| a.beh == Some(Beh::GarbageReply) && a.first_bin_ms.is_some() && a.act_after_ms.is_some()).count();
+    let inv_pending = execs.iter().filter(|e| e.sc.script.last() == Some(&Beh::GarbageReply) && e.client_end_at_finish.as_ref().is_some_and(|c| c.class == "invalid-frame")).count();
+    rep.extra.insert("invalid_frames_sent_unprompted".into(), json!(bad_sent));
+    rep.extra.insert("invalid_frames_sent_in_answer_to_a_stream_request".into(), json!(bad_replies));
+    rep.extra.insert("clients_ended_by_invalid_frame".into(), json!({"all": n_inv, "with_a_stream_request_pending": inv_pending}));
     rep.extra.insert("suspicions".into(), json!(suspects.iter().map(|(k, v)| (k.clone(), v.len())).collect::<BTreeMap<_, _>>()));
     rep.extra.insert("suspicions_confirmed_alone".into(), json!(confirmed.keys().collect::<Vec<_>>()));
     rep.extra.insert("suspicions_not_reproduced_alone".into(), json!(refuted.len()));
@@ -1574,7 +1713,7 @@ pub fn run(args: &Args) -> Report {
     for (_, (_, iso)) in confirmed.iter().take(2) {
         rep.sample(iso.observation());
     }
-    for want in ["G-close-hold", "E-keepalive", "F-tls-handshake", "C-reset-after-success", "B-pending-local", "A-counts-delays", "D-refused"] {
+    for want in ["H-invalid-frame", "G-close-hold", "E-keepalive", "F-tls-handshake", "C-reset-after-success", "B-pending-local", "A-counts-delays", "D-refused"] {
         if let Some(e) = execs.iter().find(|e| e.sc.family == want && e.findings.is_empty() && e.machinery.is_none()) {
             rep.sample(e.observation());
         }
@@ -1584,6 +1723,8 @@ pub fn run(args: &Args) -> Report {
     rep.assumptions.push("lower bounds on gaps are anchored at server-side timestamps taken before the failure was caused (tolerance 2 ms); upper bounds are 3x the due delay + 1 s".into());
     rep.assumptions.push("handshake_timeout = channel_timeout = 1 s, keepalive off, ws:// (families A-D), one TCP remote on 127.0.0.1; the back-off generator itself is checked exhaustively by the vmux half of C19".into());
     rep.assumptions.push(format!("families E (silent server; keepalive on/off) and F (wss:// with --tls-skip-verify, the server never speaks TLS; handshake timeout {TLS_HS_TIMEOUT_MS} ms in the quick tier) run in real time: an attempt counts as too early only {WIDE_TOL_LO_MS} ms before its earliest due time (last Pong + T + delay / earliest start + handshake timeout + delay), as too late only {WIDE_TOL_UP_MS} ms after its latest due time (last Pong + T + I + delay / accept + handshake timeout + delay), as never coming {HANG_EXTRA_MS} ms after the latter"));
+
+    rep.assumptions.push(format!("family H: the non-retryable error after the handshake is penguin_mux::Error::InvalidFrame, caused by one binary message of {} octets 0xff; the server keeps the TCP connection open and plays the same on every further connection; 'at once' is judged as for http404 (the client ends within 1 s of the bad message, and no further connection attempt is made)", net::GARBAGE.len()));
 
     // ---- vacuity guard
     let n_max = ends.get("max-retry").copied().unwrap_or(0);
@@ -1595,6 +1736,10 @@ pub fn run(args: &Args) -> Report {
         rep.machinery_error = Some(format!("{} suspicion(s) could not be re-run alone within the time budget (machine too loaded for a verdict), e.g. {}", unresolved.len(), unresolved[0]));
     } else if n_max == 0 || n_http == 0 || n_run == 0 || echoes == 0 {
         rep.machinery_error = Some(format!("degenerate run: give-ups {n_max}, non-retryable exits {n_http}, clients left connected {n_run}, echoed local connections {echoes} -- each must be > 0"));
+    } else if bad_sent == 0 || bad_replies == 0 {
+        rep.machinery_error = Some(format!("degenerate run: invalid frames sent unprompted {bad_sent}, in answer to a stream request {bad_replies} -- each must be > 0"));
+    } else if confirmed.is_empty() && (n_inv == 0 || inv_pending == 0) {
+        rep.machinery_error = Some(format!("degenerate run: clients ended by the invalid frame {n_inv}, of these with a stream request pending {inv_pending} -- each must be > 0 when nothing was found"));
     } else if confirmed.is_empty() && (ka_gaps.is_empty() || tls_gaps.is_empty() || pongs == 0 || hellos == 0 || ka_controls == 0) {
         rep.machinery_error = Some(format!("degenerate run: reconnects after a silent server {}, Pongs sent by silent servers {pongs}, retries after a stalled TLS handshake {}, TLS ClientHellos seen {hellos}, keepalive-off controls that stayed connected {ka_controls} -- each must be > 0 when nothing was found", ka_gaps.len(), tls_gaps.len()));
     }
